@@ -25,6 +25,23 @@ MAY_PUBLISH = {
 }
 
 
+def _only_called_from(mi, fn: str, allowed: set, _seen=None) -> bool:
+    """`fn` is a helper of the module whose every call site (by name) lies in an allowed function or in such a helper: code moved
+    out of an allowed function keeps its licence, a new caller elsewhere does not get one"""
+    if not allowed:
+        return False
+    _seen = (_seen or set()) | {fn}
+    callers = set()
+    for node in ast.walk(mi.tree):
+        if isinstance(node, ast.Call):
+            name = node.func.id if isinstance(node.func, ast.Name) else (node.func.attr if isinstance(node.func, ast.Attribute) else None)
+            if name == fn:
+                callers.add(enclosing(mi.tree, node))
+    if not callers:
+        return False
+    return all(c in allowed or (c not in _seen and c != '<module>' and _only_called_from(mi, c, allowed, _seen)) for c in callers)
+
+
 def enclosing(tree, node) -> str:
     best = '<module>'
     for n in ast.walk(tree):
@@ -44,7 +61,7 @@ def who_may_publish(ctx, py: PyRepo):
                 n += 1
                 if fn == meth and recv in ('super()', 'self.sub_interpreter'):
                     continue          # override / forwarding chain
-                ok = (mname, fn) in MAY_PUBLISH[meth]
+                ok = (mname, fn) in MAY_PUBLISH[meth] or _only_called_from(mi, fn, {f for m, f in MAY_PUBLISH[meth] if m == mname})
                 ctx.ob('who-may-publish', f'{meth}@{mname}.{fn}', ok,
                        f'{mname}.{fn} calls {meth}: only {sorted(f"{m}.{f}" for m, f in MAY_PUBLISH[meth])} may publish', py.where(mname, node),
                        facts={'receiver': recv})
